@@ -30,6 +30,11 @@ CHECKS = {
              "operations over shared objects, with bitwise snapshots of every argument and of numpy.geterr() around "
              "every call, bitwise comparison of repeated results, shares_memory / scribbling of results, and the "
              "final world compared with the model's.",
+        note="PARTIAL SCOPE: the proof is about a specification-level state machine (what purity means and what "
+             "follows from it for all histories); the claim that the NumPy implementation has no aliasing / hidden "
+             "state, i.e. that it refines that machine, rests on runtime observation of generated histories only "
+             "(about 650 histories / 4500 monitored calls in the thorough tier), and unit normalisation is checked "
+             "numerically. ",
         design="5 C19", technique="Coq proof about an effects model + runtime monitor (model/implementation "
                                   "correspondence on operation histories)"),
 }
@@ -51,7 +56,7 @@ def main():
                 "replay_cmd_template": "./check %s --replay {path}" % pid,
                 "engine": "coq+correspondence",
                 "level_claimed": {"category": "proof", "text": c["text"], "design_ref": c["design"]},
-                "level_note": LEVEL_NOTE,
+                "level_note": c.get("note", "") + LEVEL_NOTE,
                 "technique": c["technique"],
             })
     na = [{"property_id": pid, "reason": NOT_YET.get(pid, "check not built yet in this session (planned, see DESIGN.md 10); not claimed")}
